@@ -92,6 +92,9 @@ def main(argv=None):
                 f = getattr(m, nm, None)
                 if f is not None:
                     env.stub(f, impl)
+            f = getattr(m, "itoa", None)
+            if f is not None and getattr(f, "__module__", "").startswith("contracts."):
+                env.stub(f, lambda it, n: env.int_to_str(it, n) if not isinstance(n, int) else str(n))
     contracts = [c for c in api.CONTRACTS if c.prop == prop and (not args.only or args.only in c.target) and not getattr(c, "assumed", False)]
     for c in api.CONTRACTS:
         if c.prop == prop and getattr(c, "assumed", False):
